@@ -79,4 +79,8 @@ F67 lies deeper than its caller
 F69 is decided by identity with the empty marker
 F71 mask refuses a negative number of positional arguments
 F70 without any signature raise ValueError
+F72 a bound method taken from **kwargs
+F73 the element of a comprehension is evaluated once per item
+F74 a positional argument written after *args
+F75 annotate applied over a modifier also updates the bound wrappers
 LIST
